@@ -26,6 +26,9 @@ RULE += (". Widened: (~1.5%) DEEP duplicates — two elements nested 28..70 JSON
 RULE += ("; (~3%) BYTE SEQUENCES ([N]uint8 by value, []uint8, *[N]uint8, elements of [][N]uint8 / [k][N]uint8 / map[string][N]uint8, []any): "
          "arrays of them with planted duplicates under uniqueItems, and as the values listed by enum / const of a schema built in Go "
          "(resolve-desc argument govals) against instances in every such spelling, of equal and of different length")
+RULE += ("; (~4%) uniqueItems beside items = {$ref, sibling} (type string and neighbours) as a draft-07 document (siblings of $ref ignored) and as "
+         "its 2020-12 twin, on arrays of numbers / booleans / strings / mixed values with planted duplicates in mixed representations; verdicts = model = spec; "
+         "(~3%) 0 and -0 together in one array (bare or nested), each zero float -0 / +0, an integer kind or json.Number 0 / -0 / -0.0 / 0.0 / 0e0")
 TRUSTED = ["python canonical-form oracle; 64-bit hash collisions are disregarded"]
 
 
@@ -296,10 +299,61 @@ def bytes_case(rng):
             "meta": {"expect": [hit(j2), hit(j1)], "len": 2, "bytes": True}}
 
 
+D7 = "http://json-schema.org/draft-07/schema#"
+REF_POOL = [Num("1"), Num("2"), Num("3"), Num("1.5"), Num("0"), True, False, None, "a", "b", "1", "", [], [Num("1")], Obj(), Obj([("a", Num("1"))])]
+
+
+def ref_sibling_case(rng):
+    """uniqueItems beside an `items` subschema that is a reference WITH SIBLINGS ({"$ref": ..., "type": "string"} and neighbours:
+    other types, type lists, minLength, const), as a draft-07 document (siblings of $ref are ignored: the array may hold anything the
+    target admits) and as its 2020-12 twin (the siblings assert); arrays of distinct / equal numbers, booleans, strings and mixed values in
+    mixed representations (1 vs 1.0 vs json.Number)."""
+    d7 = rng.random() < 0.6
+    defs = "definitions" if d7 or rng.random() < 0.3 else "$defs"
+    target = rng.choice([True, Obj(), Obj(), Obj([("type", ["number", "string", "boolean"])]), Obj([("type", "number")]),
+                         Obj([("not", Obj([("type", "null")]))]), Obj([("type", "string")])])
+    sib = rng.choice([("type", "string"), ("type", "string"), ("type", "string"), ("type", "number"), ("type", ["string"]),
+                      ("type", "boolean"), ("minLength", Num("1")), ("type", "array")])
+    it = Obj([("$ref", "#/%s/t" % defs), sib])
+    c = rng.random()
+    if c < 0.15:
+        it = Obj([sib])                                  # no reference: the sibling asserts in both drafts
+    elif c < 0.25:
+        it = Obj([sib, ("$ref", "#/%s/t" % defs)])
+    doc = Obj(([("$schema", D7)] if d7 else []) + [("uniqueItems", True), ("items", it), (defs, Obj([("t", target)]))])
+    if rng.random() < 0.15:
+        doc.set("minItems", Num("1"))
+    ginsts = []
+    for _ in range(4):
+        kind = rng.choice(["num", "num", "bool", "str", "mixed", "mixed", "cont"])
+        pool = {"num": [v for v in REF_POOL if isinstance(v, Num)], "bool": [True, False], "str": [v for v in REF_POOL if isinstance(v, str)],
+                "mixed": REF_POOL, "cont": [v for v in REF_POOL if isinstance(v, (list, Obj))]}[kind]
+        ys = rng.sample(pool, rng.randint(1, min(4, len(pool))))
+        if rng.random() < 0.5:
+            ys = plant(rng, ys)
+        ginsts.append({"t": "[]any", "v": [gv.canonical_repr(y) if rng.random() < 0.5 else gv.represent(rng, y) for y in ys]})
+    return {"op": "validate", "args": {"schema": doc, "ginsts": ginsts}, "meta": {"len": 2, "refsib": "7" if d7 else "2020"}}
+
+
+def zero_case(rng):
+    """0 and -0 in one array under uniqueItems, every zero in its own representation (gv.zero_array); oracle: zeros are equal."""
+    j, reprs = gv.zero_array(rng)
+    cs = [canon(x) for x in j]
+    exp = len(set(cs)) == len(cs)
+    return {"op": "validate", "args": {"schema": Obj([("uniqueItems", True)]), "ginsts": reprs},
+            "meta": {"expect": [exp] * len(reprs), "len": len(j), "zeros": True}}
+
+
 def gen(rng, tier, n):
     ops = []
     while len(ops) < n:
         r0 = rng.random()
+        if 0.9 < r0 <= 0.93:
+            ops.append(zero_case(rng))
+            continue
+        if 0.93 < r0 <= 0.97:
+            ops.append(ref_sibling_case(rng))
+            continue
         if r0 > 0.97:
             ops.append(bytes_case(rng))
             continue
